@@ -121,7 +121,11 @@ UpdateToks(txt, op) ==
     [] op.form = "delete_where" -> KW("DELETE") \o Block(txt, op.del) \o KW("WHERE") \o GroupToks(txt, op.where)
     [] op.form = "delete_insert_where" -> KW("DELETE") \o Block(txt, op.del) \o KW("INSERT") \o Block(txt, op.ins) \o KW("WHERE") \o GroupToks(txt, op.where)
 
-PrintCase(c) == CASE c.kind = "select" -> SelectToks(c.txt, c.tree) [] c.kind = "group" -> GroupToks(c.txt, c.tree) [] OTHER -> UpdateToks(c.txt, c.tree)
+\* PREFIX prologue: when the case declares one (key "~prefix" = namespace abbreviated as e:), the IRIs of that namespace are
+\* spelled as prefixed names in txt and the declaration is printed first
+Prologue(txt) == IF "~prefix" \in DOMAIN txt THEN KW("PREFIX") \o TM("e:") \o TM("<" \o txt["~prefix"] \o ">") ELSE <<>>
+PrintCase(c) == Prologue(c.txt) \o
+                (CASE c.kind = "select" -> SelectToks(c.txt, c.tree) [] c.kind = "group" -> GroupToks(c.txt, c.tree) [] OTHER -> UpdateToks(c.txt, c.tree))
 
 ---------------------------------------------------------------------------
 VARIABLES i,        \* index of the case being printed
